@@ -24,6 +24,10 @@ def obligations(tier):
                       funcs=(SY + "BPMEvents.timestamp_at_tick",)))
     obs.append(Ob("C12.long_map.index.K10", "CH", "harness.h_big", "index_big", 900, {"VF_KB": 10}, funcs=(SY + "BPMEvents._index_of_proximal_event",),
                   bounds="10 tempo events with symbolic ticks, every hint"))
+    obs.append(Ob("C12.kernel_sequence", "CH", "harness.h_extra", "kernel_sequence", 300, funcs=(TK + "seconds_from_ticks_at_bpm (real, native)",),
+                  bounds="the real kernel twice in a row on solver-chosen arguments (same tempo, other resolution): no state carried over"))
+    obs.append(Ob("C12.bpm_event_dataflow.uf", "CH", "harness.h_extra", "bpm_event_dataflow_uf", 300, funcs=(SY + "BPMEvent.from_parsed_data",),
+                  bounds="sub-microsecond segments (clock value 0): the tempo event's stamp is the same composition as an in-segment tick"))
     obs.append(Ob("C12.anchors_ignored", "CH", "harness.h_extra", "anchors_do_not_move_time", 600, funcs=(SY + "SyncTrack.from_chart_lines",),
                   bounds="an anchor line with an arbitrary microsecond value never changes any tempo / signature timestamp"))
     for ix in (["0,1"] if tier == "quick" else ["0,1", "7,2", "0,6,1"]):
